@@ -156,10 +156,14 @@ func c06Log(x *hist.Exec) {
 	seen := map[key]int64{}
 	lastLamport := map[string]int64{}
 	bySeq := map[int64]*database.ChangeInfo{}
-	byActorSeq := map[string]*database.ChangeInfo{}
+	// (actor, clientSeq) is not unique across re-attachments (a new Document
+	// restarts clientSeq at 1): rows and creation records with the same key are
+	// matched in order.
+	byActorSeq := map[string][]*database.ChangeInfo{}
 	for _, ci := range infos {
 		bySeq[ci.ServerSeq] = ci
-		byActorSeq[fmt.Sprintf("%s/%d", ci.ActorID, ci.ClientSeq)] = ci
+		k2 := fmt.Sprintf("%s/%d", ci.ActorID, ci.ClientSeq)
+		byActorSeq[k2] = append(byActorSeq[k2], ci)
 		hasClock := ci.Lamport != 0 && len(ci.VersionVector) > 0
 		if len(ci.Operations) > 0 && !hasClock {
 			x.Viol = append(x.Viol, hist.Violation{Kind: "clock-missing", Sig: "clock-missing",
@@ -191,9 +195,16 @@ func c06Log(x *hist.Exec) {
 	}
 	// causality: vv(c) >= vv(d), lamport(c) > lamport(d) for every d applied at the author before c was made
 	pairsChecked := 0
+	used := map[string]int{}
 	for _, cr := range x.Created {
 		rep := x.Reps[cr.Role]
-		c := byActorSeq[fmt.Sprintf("%s/%d", rep.Cli.ID().String(), cr.ClientSeq)]
+		k2 := fmt.Sprintf("%s/%d", rep.Cli.ID().String(), cr.ClientSeq)
+		rows := byActorSeq[k2]
+		if used[k2] >= len(rows) {
+			continue
+		}
+		c := rows[used[k2]]
+		used[k2]++
 		if c == nil || c.Lamport == 0 || len(c.VersionVector) == 0 {
 			continue
 		}
@@ -202,7 +213,7 @@ func c06Log(x *hist.Exec) {
 			if d.Lamport == 0 || len(d.VersionVector) == 0 || d == c {
 				continue
 			}
-			own := d.ActorID == c.ActorID && d.ClientSeq < c.ClientSeq
+			own := d.ActorID == c.ActorID && d.ServerSeq < c.ServerSeq
 			if !(d.ServerSeq <= cr.CpServerSeq || own) {
 				continue
 			}
